@@ -106,6 +106,11 @@ func genCase(t *rapid.T) Case {
 		j := gen.Uniform(t, "shuffle", i+1)
 		c.Sched[i], c.Sched[j] = c.Sched[j], c.Sched[i]
 	}
+	if gen.Chance(t, "endcreator", 6) {
+		// the context of the evaluation that created the future ends (its host is done with it) at some point
+		pos := gen.Uniform(t, "endcreatorat", len(c.Sched)+1)
+		c.Sched = append(c.Sched[:pos], append([]Ev{{Kind: "endcreator"}}, c.Sched[pos:]...)...)
+	}
 	if gen.Chance(t, "longpark", 15) {
 		// the body stays parked long after the readers' own contexts have ended: the readers are started
 		// first, everything else comes after a long pause
@@ -160,6 +165,8 @@ func describe(c Case) string {
 			sb.WriteString(fmt.Sprintf(" release(g%d)", e.Gate))
 		case "sleep":
 			sb.WriteString(fmt.Sprintf(" sleep(%dms)", e.Ms))
+		case "endcreator":
+			sb.WriteString(" end-of-the-creating-evaluation's-context")
 		}
 	}
 	return sb.String()
@@ -228,6 +235,7 @@ func check(c Case) pbt.Verdict {
 	// the context of the evaluation that creates the future stays alive for the whole script
 	creatorCtx, creatorCancel := context.WithCancel(context.Background())
 	defer creatorCancel()
+	creatorEnded := false
 	if r := box.ReadEval(creatorCtx, "(def fut (future "+bodyText(c.Body)+"))", e); r.Err != nil || r.Panicked {
 		return pbt.Failf("harness:create", "creating the future failed: %v %v", r.Err, r.PanicVal)
 	}
@@ -342,6 +350,11 @@ func check(c Case) pbt.Verdict {
 			gates[ev.Gate].release <- struct{}{}
 		case "sleep":
 			time.Sleep(time.Duration(ev.Ms) * time.Millisecond)
+		case "endcreator":
+			// from now on the body is no longer held by the harness alone: its own context is over
+			bodyReleased.CompareAndSwap(0, time.Now().UnixNano())
+			creatorEnded = true
+			creatorCancel()
 		}
 	}
 	for i := range c.Threads {
@@ -382,7 +395,7 @@ func check(c Case) pbt.Verdict {
 		ictx, icancel := context.WithTimeout(context.Background(), 10*time.Second)
 		r := box.ReadEval(ictx, "(deref (deref fut))", e)
 		icancel()
-		if !anyTrue {
+		if !anyTrue && !creatorEnded { // (the inner future lives under the creating evaluation's context too)
 			if r.Panicked || r.Err != nil || r.Val != 7 {
 				return pbt.Failf("cancel-of-completed-future-had-an-effect", "no future-cancel returned true, yet the inner future started by the body does not deliver 7: value=%v err=%v\n%s", r.Val, r.Err, describe(c))
 			}
@@ -449,8 +462,16 @@ func check(c Case) pbt.Verdict {
 	if runs > 1 {
 		return fail("body-ran-more-than-once", "the body ran %d times", runs)
 	}
-	if runs == 0 && !cancelIssued {
+	if runs == 0 && !cancelIssued && !creatorEnded {
 		return fail("body-never-ran", "the body never ran although nobody cancelled the future")
+	}
+	// only future-cancel makes a future cancelled
+	if !cancelIssued {
+		for _, r := range hist {
+			if r.op == "cancelled?" && r.b {
+				return fail("cancelled-without-cancel", "future-cancelled? is true although nobody called future-cancel")
+			}
+		}
 	}
 	// every reader gets the same outcome
 	for i := 1; i < len(outcomes); i++ {
